@@ -95,6 +95,8 @@ def op_wire(o):
         return {"op": o["op"]}
     if o["op"] == "complete":
         return {"op": "complete", "args": [lib.l1(x) for x in o["args"]]}
+    if o["op"] == "attach":
+        return {"op": "attach", "attach": attach_wire(o["attach"])}
     raise ValueError(o)
 
 
@@ -186,6 +188,7 @@ def op_coq(o):
     if o["op"] == "help": return "OpHelp"
     if o["op"] == "man": return "OpMan"
     if o["op"] == "complete": return "(OpComplete %s)" % cl([cs(x) for x in o["args"]])
+    if o["op"] == "attach": return "(OpAttach %s)" % attach_coq(o["attach"])
     raise ValueError(o)
 
 
@@ -213,6 +216,8 @@ def all_field_lists(sc):
     ls = []
     if sc["data"] is not None: ls.append(sc["data"])
     for a in sc["attach"]: ls.append(a["fields"])
+    for o in sc["ops"]:
+        if o["op"] == "attach": ls.append(o["attach"]["fields"])
     return ls
 
 
@@ -367,6 +372,7 @@ def s_op(o):
     if o["op"] == "man": return b"M"
     if o["op"] == "inspect": return b"N"
     if o["op"] == "complete": return b"C" + s_list([s_str(x) for x in o["args"]])
+    if o["op"] == "attach": return b"A" + s_attach(o["attach"])
     raise ValueError(o)
 
 
